@@ -131,8 +131,11 @@ def check_cells(model: FsmModel, rep, rule_eff='C04.T3', rule_next='C04.T4', onl
                 if best is None or len(d) + len(nd) < len(best[0]) + len(best[1]):
                     best = (d, nd, a)
             d, nd, a = best
-            if o.exc_path and d and all(x_.startswith('sends nothing') for x_ in d) and not nd \
-                    and any(cn_ == 'exc:OSError' for cn_ in o.conds) and not any(cn_.startswith('exc:') and cn_ != 'exc:OSError' for cn_ in o.conds):
+            if o.exc_path and d and all(x_.startswith('sends nothing') or x_.startswith('closes/releases the transport') for x_ in d) \
+                    and any(x_.startswith('sends nothing') for x_ in d) and not nd \
+                    and any(cn_ == 'exc:OSError' for cn_ in o.conds) \
+                    and not any(cn_.startswith('exc:') and cn_ != 'exc:OSError' and not (cn_ == 'exc:Exception' and any(a is x_ for x_ in exc_alts))
+                                for cn_ in o.conds):
                 # the prescribed transmission was attempted and failed (the handler around sendall() was entered): on a broken
                 # transport nothing can be sent; the sibling path on which the send succeeds is judged on its own
                 held_.append((o, d, a))
